@@ -1,10 +1,13 @@
 import StraxModel.Lemmas.SuperrunDeep
 import StraxModel.Generated.RunDoc
+import StraxModel.Lemmas.SuperrunGen
+import StraxModel.Lemmas.SuperrunWitness
 /-
   Property C14 — a superrun is exactly the ordered concatenation of its subruns.
   Only property theorems and non-vacuity examples; the work is in Lemmas/Superrun{,Rows,Level,Cont,Pipe,Deep}.lean, the
   model in Model/Superrun.lean (+ Model/Chunk.lean, Model/Rechunk.lean), one translated constant in Generated/RunDoc.lean.
-  26 theorems: 16 full, 8 `_partial` (docstrings name the missing part), 2 witnesses (`_counterexample`).
+  40 theorems: 28 full (8 of them `generated_*` translator ties to Generated/SplitRuns.lean), 8 `_partial` (docstrings name
+  the missing part), 4 witnesses (`_counterexample`; the C14c / C14e ones by `decide +kernel` on the whole pipeline).
   Partial-correctness statements ("if `get_iter` returns …") are `_partial`; their total siblings are
   `basic_pipeline_rows_total` and `superrun_rows_total_adjacent`.
 -/
@@ -409,5 +412,152 @@ example : WorldAdj ⟨-1, "_s", [⟨"l0", false, false, 5⟩, ⟨"l1", true, fal
             "a", ⟨rfl, rfl, rfl, rfl, by decide, by decide, ?_⟩, by decide, (fun _ _ h => by cases h; rfl),
             "b", ⟨rfl, rfl, rfl, rfl, by decide, by decide, ?_⟩, by decide, (fun _ _ h => by cases h; rfl), trivial⟩
     all_goals (intro x hx; simp [loaderOf] at hx; try (subst hx; decide))
+
+/-! ## 7. Round 5 — total siblings of the `_partial` statements on the domains where the code does not fail
+
+Excluded by the hypotheses, and why: a time gap between consecutive subruns at depth ≥ 2 (C14a,
+`chunk_records_its_subruns_counterexample`), zero-duration chunks (C14c / C14e, `zero_duration_chunk_counterexample`,
+`zero_duration_last_chunk_counterexample`).  `WorldOK` / `WorldAdj` additionally ask for an empty store,
+`write_superruns` off and all levels above the source superrun-capable — wider than the defects; the partial
+statements above stay the only ones for that remainder. -/
+
+/-- **superrun_rows in order of run start — TOTAL, adjacent subruns, any depth** (sibling of
+`superrun_rows_in_start_order_partial`).  `define_run` (succeeding: every listed run has a document) followed by
+`get_iter` at the topmost of any number `≥ 1` of superrun-capable levels RETURNS, and the rows are the listed
+subruns' rows, each subrun once, in order of run start.  `WorldAdj` excludes gaps between subruns (C14a) and
+zero-duration chunks (C14c/e). -/
+theorem superrun_rows_in_start_order_total_adjacent {κ : Type} [DecidableEq κ] (H : List (String × Option (Int × Int)) → Bool → κ)
+    (hH : ∀ a b c d, H a b = H c d → a = c ∧ b = d) (w : World) (docs : List (String × Int)) (data startSpec : List String)
+    (l0 l1 top : Level) (ls : List Level)
+    (hdef : defineRun docs data = .ok startSpec) (h : WorldAdj w l0 l1 ls startSpec) (htop : (l1 :: ls).getLast? = some top) :
+    ∃ y, (definedSpec Generated.runDocSortKeys docs data >>= fun spec => superGet H w spec [] [] (ls.length + 1) false false) = .ok (y, []) ∧
+      rowsOf y = startSpec.flatMap (srcRows w) ∧ startSpec.Perm (dedup data) ∧
+      startSpec.Pairwise (fun a b => ∃ sa sb, docs.lookup a = some sa ∧ docs.lookup b = some sb ∧ sa ≤ sb) := by
+  obtain ⟨hg, hr⟩ := superrun_rows_total_adjacent H hH w l0 l1 top ls startSpec h htop
+  refine ⟨_, ?_, hr, defineRun_perm hdef, defineRun_sorted hdef⟩
+  rw [definedSpec_eq_defineRun, hdef]
+  exact hg
+
+/-- **… TOTAL, basic pipeline, ANY gaps** (source + one superrun level; this is the part of the gap domain on which
+the code is correct — C14a needs depth ≥ 2). -/
+theorem superrun_rows_in_start_order_total_basic {κ : Type} [DecidableEq κ] (H : List (String × Option (Int × Int)) → Bool → κ)
+    (hH : ∀ a b c d, H a b = H c d → a = c ∧ b = d) (w : World) (docs : List (String × Int)) (data startSpec : List String)
+    (l0 l1 : Level) (hdef : defineRun docs data = .ok startSpec) (h : WorldOK w l0 l1 startSpec) :
+    ∃ y, (definedSpec Generated.runDocSortKeys docs data >>= fun spec => superGet H w spec [] [] 1 false false) = .ok (y, []) ∧
+      rowsOf y = startSpec.flatMap (srcRows w) ∧ startSpec.Perm (dedup data) ∧
+      startSpec.Pairwise (fun a b => ∃ sa sb, docs.lookup a = some sa ∧ docs.lookup b = some sb ∧ sa ≤ sb) := by
+  obtain ⟨y, hg, hr⟩ := basic_pipeline_rows_total H hH w l0 l1 startSpec h
+  refine ⟨y, ?_, hr, defineRun_perm hdef, defineRun_sorted hdef⟩
+  rw [definedSpec_eq_defineRun, hdef]
+  exact hg
+
+/-- **plugin_level_rows — TOTAL on loader streams** (sibling of `plugin_level_rows_partial`): on every stream the concat
+loader yields (`LoaderStream`, any gaps) a superrun-capable level returns and keeps the rows. -/
+theorem plugin_level_rows_total_loader (lv : Level) (sup dt : String) (cs : List Chunk) (hallow : lv.allow = true)
+    (hsupid : isSuperId sup = true) (hne : cs ≠ []) (hs : LoaderStream dt sup none cs) :
+    ∃ outs, pluginRun lv sup cs = .ok outs ∧ rowsOf outs = rowsOf cs :=
+  ⟨_, pluginRun_loader hallow hsupid hne hs, pluginRun_rows (pluginRun_loader hallow hsupid hne hs)⟩
+
+/-- **stored_and_reread_rows — TOTAL for a saver without rechunking** (sibling of `stored_and_reread_rows_partial`):
+save and re-read of any superrun stream return and keep the rows.  Still partial-only: the rechunking saver. -/
+theorem stored_and_reread_rows_total_no_rechunk (a : Int) (lv : Level) (dt sup : String) (cs : List Chunk)
+    (hre : lv.rechunk = false) (hs : SuperStream dt sup none cs) :
+    ∃ saved loaded, save a lv sup cs = .ok saved ∧ saved.mapM reload = .ok loaded ∧ rowsOf loaded = rowsOf cs :=
+  ⟨cs, cs, (save_reload_super (a := a) hre cs none hs).1, (save_reload_super (a := a) hre cs none hs).2, rfl⟩
+
+/-! ## 8. Round 5 — the open findings pinned on the whole model pipeline by kernel evaluation
+
+Each witness also evaluates the NEIGHBOURING inputs that work, so the excluded region is seen to be as small as the
+defect: the same world at depth 1 / without the zero-duration chunk / without `write_superruns`.  (C14a keeps its
+rewriting witness `chunk_records_its_subruns_counterexample`: the kernel cannot unfold `List.mergeSort` on the
+two-entry annotation of a border chunk, single-subrun worlds are fine.) -/
+open Strax.Superrun.Witness in
+/-- **C14c.**  One subrun with chunks `[0,10), [10,10), [10,20)` through two superrun levels: `TypeError`
+(`continuity_check` with `last_subrun = None`).  At depth 1, or without the zero-duration chunk, `get_iter` returns
+(so the positive-duration hypothesis of `LoaderStream` is WIDER than the defect at depth 1: not proved there, only
+evaluated here and by the correspondence `superrun/zerodur`). -/
+theorem zero_duration_chunk_counterexample :
+    twice zeroWorld ["a"] 2 false = (some Err.typeError, none) ∧
+    twice zeroWorld ["a"] 1 false = (none, none) ∧
+    twice noZeroWorld ["a"] 2 false = (none, none) := by
+  decide +kernel
+
+open Strax.Superrun.Witness in
+/-- **C14e.**  One subrun `[2,3) ++ [3,3)` (zero-duration chunk last), levels `l1` (no superrun) → `l2`, `l3`
+(superrun-capable), `write_superruns`: the first `get_iter` returns, the second raises `ValueError` (a chunk was
+stored with `subruns: None`).  Without `write_superruns` both calls return. -/
+theorem zero_duration_last_chunk_counterexample :
+    twice zeroLastWorld ["a"] 3 true = (none, some Err.valueError) ∧
+    twice zeroLastWorld ["a"] 3 false = (none, none) := by
+  decide +kernel
+
+/-! ## 9. Round 5 — translator ties: scalar decisions regenerated from /repo/strax/chunk.py (Generated/SplitRuns.lean) -/
+
+/-- `_split_runs_in_chunk` with the GENERATED if/elif chain (`t <= start` / `start < t < end` / `end <= t`) is the
+model's `splitRuns` — for every input.  A change of a comparison or of what a branch assigns breaks this proof. -/
+theorem generated_split_case_eq_model (runs : Option Runs) (t : Int) : splitRunsGen runs t = splitRuns runs t :=
+  splitRunsGen_eq runs t
+
+/-- the chain of the source has no fall-through: every run gets an entry in at least one half -/
+theorem generated_split_case_total (t s e : Int) :
+    (Generated.splitRunCase t s e).1 ≠ none ∨ (Generated.splitRunCase t s e).2 ≠ none :=
+  splitRunCase_total t s e
+
+/-- `split_merge_runs` stated of the generated chain directly -/
+theorem generated_split_merge_runs (rs : Runs) (t : Int) (hs : RunsSorted rs) (hn : (rs.map (·.id)).Nodup) :
+    mergableCheck false (collectRuns [(splitRunsGen (some rs) t).1, (splitRunsGen (some rs) t).2])
+      = .ok (nonEmptyRuns rs) := by
+  rw [splitRunsGen_eq]; exact split_merge_runs rs t hs hn
+
+/-- the sort key of the `subruns` setter (after fix D31: `(start, end)`) is the model's `runLe` -/
+theorem generated_subruns_order_eq_model (a b : Run) :
+    Generated.subrunsKeyLe a.start a.stop b.start b.stop = runLe a b :=
+  subrunsKeyLe_eq a b
+
+/-- the `subruns` setter built from the generated key and the generated `_sorted_subruns_check` test is what
+`Chunk.__init__` of the model does with `subruns`: it raises `ValueError` exactly when the generated setter gives
+`none`, and otherwise the chunk records the generated setter's result. -/
+theorem generated_subruns_setter_eq_model (dt k : String) (rid : Option String) (a b : Int) (rows : List Row) (s : Runs)
+    (sup : Option Runs) (tg : Nat) :
+    (setSubrunsGen s = none → mkChunk dt k rid a b rows (some s) sup tg = .error Err.valueError) ∧
+    (∀ c, mkChunk dt k rid a b rows (some s) sup tg = .ok c → c.subruns = setSubrunsGen s) := by
+  rw [setSubrunsGen_eq]
+  unfold setSubruns
+  constructor
+  · intro h
+    by_cases ho : runsOverlap (sortRuns s) = true
+    · unfold mkChunk
+      simp only [ho, if_true, bind, Except.bind, throw, throwThe, MonadExceptOf.throw]
+    · simp [ho] at h
+  · intro c hc
+    obtain ⟨hc1, _, _, _, hov⟩ := Strax.Superrun.mkChunk_fields hc
+    subst hc1
+    simp [hov s rfl]
+
+/-- `_pop_out_empty_run_id` with the generated removal test (`start == end`) is the model's `popEmpty` -/
+theorem generated_pop_empty_eq_model (rs : Runs) : popEmptyGen rs = popEmpty rs := popEmptyGen_eq rs
+
+/-- `_mergable_check` with both generated raise conditions (concatenate: `span[i].start != span[i-1].end`; merge:
+`span[i] != span[0]` in start or end) is the model's `mergableCheck`, for every input and both modes — so
+`split_merge_runs` and the C14a witness speak about the conditions of the current source. -/
+theorem generated_mergable_check_eq_model (merge : Bool) (m : List (String × List (Int × Int))) :
+    mergableCheckGen merge m = mergableCheck merge m := mergableCheckGen_eq merge m
+
+/-- `split_merge_runs` with EVERY scalar decision taken from the generated definitions: generated chain, generated
+pop-empty test (inside `splitRunsGen` via `popEmpty = popEmptyGen`), generated merge condition. -/
+theorem generated_split_merge_runs_all (rs : Runs) (t : Int) (hs : RunsSorted rs) (hn : (rs.map (·.id)).Nodup) :
+    mergableCheckGen false (collectRuns [popEmptyGen (splitRunsListGen t rs).1, popEmptyGen (splitRunsListGen t rs).2])
+      = .ok (nonEmptyRuns rs) := by
+  rw [mergableCheckGen_eq, popEmptyGen_eq, popEmptyGen_eq, splitRunsListGen_eq]
+  exact split_merge_runs rs t hs hn
+
+/-- non-vacuity: the generated setter sorts by (start, end) and refuses overlaps -/
+example : setSubrunsGen [⟨"b", 5, 9⟩, ⟨"a", 0, 5⟩] = some [⟨"a", 0, 5⟩, ⟨"b", 5, 9⟩] ∧
+    setSubrunsGen [⟨"b", 4, 9⟩, ⟨"a", 0, 5⟩] = none := by
+  constructor <;>
+    simp [setSubrunsGen, List.mergeSort, List.MergeSort.Internal.splitInTwo, Generated.subrunsKeyLe,
+      runsOverlapGen, Generated.subrunsOverlap]
+example : splitRunsGen (some [⟨"a", 0, 5⟩, ⟨"b", 5, 5⟩, ⟨"c", 5, 9⟩]) 3 = (some [⟨"a", 0, 3⟩], some [⟨"a", 3, 5⟩, ⟨"c", 5, 9⟩]) := by
+  decide
 
 end Strax.C14
